@@ -1,0 +1,65 @@
+//! Verification hooks. Only built with the `verif` cargo feature; never part of a normal build.
+//!
+//! Provides a stand-in for [`std::time::Instant`] that is a pass-through to the real clock
+//! unless [`set_virtual`] has been called with `true`, in which case every thread reads its own
+//! simulated clock that only moves when [`advance`] is called on that thread.
+
+use std::cell::Cell;
+use std::ops::Sub;
+use std::sync::atomic::{AtomicBool, Ordering};
+use std::time::Duration;
+
+static VIRTUAL: AtomicBool = AtomicBool::new(false);
+
+thread_local! {
+    static NOW: Cell<Duration> = const { Cell::new(Duration::from_secs(1_000_000_000)) };
+}
+
+/// Switches the whole process between the real clock (`false`, default) and simulated time.
+pub fn set_virtual(on: bool) {
+    VIRTUAL.store(on, Ordering::SeqCst);
+}
+
+/// Advances the simulated clock of the calling thread.
+pub fn advance(d: Duration) {
+    NOW.with(|n| n.set(n.get() + d));
+}
+
+/// Stand-in for [`std::time::Instant`].
+#[derive(Clone, Copy, Debug)]
+pub enum Instant {
+    /// A real point in time.
+    Real(std::time::Instant),
+    /// A simulated point in time.
+    Virtual(Duration),
+}
+
+impl Instant {
+    /// See [`std::time::Instant::now`].
+    pub fn now() -> Instant {
+        if VIRTUAL.load(Ordering::SeqCst) {
+            Instant::Virtual(NOW.with(|n| n.get()))
+        } else {
+            Instant::Real(std::time::Instant::now())
+        }
+    }
+
+    /// See [`std::time::Instant::elapsed`].
+    pub fn elapsed(&self) -> Duration {
+        match self {
+            Instant::Real(t) => t.elapsed(),
+            Instant::Virtual(t) => NOW.with(|n| n.get()) - *t,
+        }
+    }
+}
+
+impl Sub<Duration> for Instant {
+    type Output = Instant;
+
+    fn sub(self, d: Duration) -> Instant {
+        match self {
+            Instant::Real(t) => Instant::Real(t - d),
+            Instant::Virtual(t) => Instant::Virtual(t - d),
+        }
+    }
+}
